@@ -25,7 +25,7 @@ def peer_writer_discipline(ctx, pkg="internal/app/referenceclient", hdir="refcli
         i = p.stdout.index("WARNING: DATA RACE")
         ctx.candidate(dict(kind="race", leg=leg), "data race in the %s loop:" % who + "\n" + p.stdout[i:i + 3000], dict(kind="race", report=p.stdout[i:i + 3000]))
     elif p.returncode != 0:
-        raise vf.Machinery(leg + " harness failed rc=%d\n%s" % (p.returncode, p.stdout[-3000:]))
+        ctx.harness_died(p, leg + " harness")
     traces = vf.read_ndjson(outp)
     unrep = 0
     for t in traces:
@@ -66,6 +66,24 @@ def peer_writer_discipline(ctx, pkg="internal/app/referenceclient", hdir="refcli
                 unrep += 1
     if unrep and not ctx.violations:
         ctx.notes[leg + "_unreproduced"] = unrep
+    # the same loop reading a stream whose bytes are split across reads in every way (also several messages in one
+    # read), binary and JSON variant: exactly the sequence that was written is answered, and Run ends cleanly
+    bout = os.path.join(ctx.build, leg + ".batch.out")
+    pb = ctx.run_harness(binp, test + "Batch", env=dict(VERIF_OUT=bout), timeout=900, check=False)
+    if "WARNING: DATA RACE" in pb.stdout:
+        i = pb.stdout.index("WARNING: DATA RACE")
+        ctx.candidate(dict(kind="race", leg=leg), "data race in the %s loop (batch input):\n" % who + pb.stdout[i:i + 3000], dict(kind="race", report=pb.stdout[i:i + 3000]))
+    elif pb.returncode != 0:
+        ctx.harness_died(pb, leg + " batch harness")
+    else:
+        brecs = vf.read_ndjson(bout)
+        if not any(r.get("summary") for r in brecs):
+            raise vf.Machinery(leg + " batch harness wrote no summary")
+        for r in brecs:
+            if r.get("kind") == "batch":
+                ctx.candidate(dict(kind="batch", leg=leg, json=r["json"], split=r["split"]),
+                              "%s reading a complete sequence of 6 requests (%s variant, %s): %s" % (who, "JSON" if r["json"] else "binary", r["split"], "; ".join(r["problems"])[:500]), r)
+        ctx.cov["evaluations"] += sum(r.get("runs", 0) for r in brecs if r.get("summary"))
     ctx.cov["traces_validated_against_impl"] += len(ok)
     ctx.cov["evaluations"] += len(traces)
     ctx.notes[leg] = dict(mc_distinct=mc.distinct if mc else None, schedules=len(scns), accepted=len(acc))
